@@ -520,6 +520,9 @@ func streamC15(c *Ctx) {
 	dr := StartDriver(c.DriverBin)
 	defer dr.Close()
 	bes := []string{"bbolt", "badger-mem", "badger-disk"}
+	if !consumerErrors(c, bes) {
+		return
+	}
 	nSets := c.N(60, 1500)
 	alphabet := []string{"a", "b", "ab", "b\x00", "c", "c:", "c:a", "c:a;d:1", "c:a;i:x;", "coll:a", "d", "\xff", "\xff\xff", "a\xff", "", "z"}
 	for si := 0; si < nSets; si++ {
@@ -711,6 +714,9 @@ func streamC20(c *Ctx) {
 		if !binaryValues(c, be) {
 			return
 		}
+	}
+	if !consumerErrors(c, backendsAll) {
+		return
 	}
 	dr := StartDriver(c.DriverBin)
 	defer dr.Close()
